@@ -185,3 +185,39 @@ Proof.
   - exact cgmy_rate0_integral.
   - intros G. apply cgmy_rate0_raises. lra.
 Qed.
+
+(* ---------------------------------------------------------------- wave 7 (audit 4, A5): quad as a function of its integrand *)
+Lemma quad_fn_spec_quad_spec Q nu : quad_fn_spec Q -> quad_spec nu (quad_of Q nu).
+Proof. intros HQ n a b Hab Hex. unfold quad_of. apply (HQ (generic_integrand nu n) a b Hab Hex). Qed.
+
+(* corollary of generic_xn_is_RInt: with scipy.quad specified on every integrand, the fall-back called with the code's integrand
+   [generic_integrand nu n] returns the integral of x^n nu *)
+Lemma generic_xn_integrand_is_RInt (Q : (R -> R) -> R -> R -> R) (nu : R -> R) : quad_fn_spec Q ->
+  forall n a b, a <= b -> ex_RInt (generic_integrand nu n) a b ->
+  is_RInt (fun x => x ^ n * nu x) a b (generic_xn (quad_of Q nu) n a b).
+Proof. intros HQ n a b Hab Hex. apply generic_xn_is_RInt; [apply quad_fn_spec_quad_spec; exact HQ | exact Hab | exact Hex]. Qed.
+
+(* the integrand matters: a quadrature handed x * nu (the callable x_nu) where the model says x^2 * nu returns another number,
+   although [Q] meets its specification.  nu = 1 on [0, 2]: int x = 2, int x^2 = 8/3. *)
+Lemma c09_generic_integrand_nonvacuous_pf :
+  let nu := fun _ : R => 1 in let Q := fun (f : R -> R) a b => RInt f a b in
+  quad_fn_spec Q /\ generic_integrand nu 2 3 = 9 /\ generic_integrand nu 1 3 = 3 /\
+  generic_xn (quad_of Q nu) 2 0 2 = 8 / 3 /\ Q (generic_integrand nu 1) 0 2 = 2.
+Proof.
+  cbv zeta. split; [intros f a b _ Hex; apply (RInt_correct f a b Hex)|].
+  split; [unfold generic_integrand; lra|]. split; [unfold generic_integrand; lra|].
+  assert (H2 : is_RInt (fun x : R => x ^ 2 * 1) 0 2 (8 / 3)).
+  { replace (8 / 3) with ((fun x => x ^ 3 / 3) 2 - (fun x => x ^ 3 / 3) 0) by (cbv beta; lra).
+    apply (@is_RInt_derive R_CompleteNormedModule (fun x => x ^ 3 / 3) (fun x => x ^ 2 * 1)).
+    - intros x _. auto_derive; [exact I | lra].
+    - intros x _. cont. }
+  assert (H1 : is_RInt (fun x : R => x ^ 1 * 1) 0 2 2).
+  { replace 2 with ((fun x => x ^ 2 / 2) 2 - (fun x => x ^ 2 / 2) 0) at 2 by (cbv beta; lra).
+    apply (@is_RInt_derive R_CompleteNormedModule (fun x => x ^ 2 / 2) (fun x => x ^ 1 * 1)).
+    - intros x _. auto_derive; [exact I | lra].
+    - intros x _. cont. }
+  split.
+  - unfold generic_xn, generic_xn_F, generic_integrate_n, quad_of, generic_integrand. rb.
+    apply is_RInt_unique. exact H2.
+  - unfold generic_integrand. apply is_RInt_unique. exact H1.
+Qed.
